@@ -1081,8 +1081,14 @@ func (c *compiler) evalStatement(node ast.Statement) (interface{}, error) {
 	case *ast.ExpressionStatement:
 		s, err := c.evalExpression(t.Expression)
 		switch s.(type) {
-		case exitBlockStatment, ast.Printable, template.HTML:
+		case exitBlockStatment, ast.Printable:
 			return s, err
+		case template.HTML:
+			// only literal template text is output here; the value of a
+			// silent <% %> tag is discarded whatever its type
+			if _, ok := t.Expression.(*ast.HTMLLiteral); ok {
+				return s, err
+			}
 		}
 
 		return nil, err
